@@ -5,7 +5,6 @@ package main
 
 import (
 	"fmt"
-	"go/token"
 	"go/types"
 	"path/filepath"
 	"sort"
@@ -330,6 +329,7 @@ func tagRule(p *Prog, r *Rule, only func(doc string, ti tagInfo, kind string) bo
 }
 
 func checkC10(p *Prog, rp *Report) {
+	defer stateRule(p, rp, "C10-STATE", p.Func("control", "ParseDsc"), p.Func("control", "ParseChanges"), p.Func("control", "ParseControl"), p.Func("control", "ParseBinaryIndex"), p.Func("control", "ParseSourceIndex"), p.Func("control", "Unmarshal"))
 	rp.Explanation = "C10-TAGS: for DSC, Changes, SourceParagraph, BinaryParagraph, BinaryIndex, SourceIndex, BestChecksums and deb.Control every struct field's resolved wire name, Go type, delim, strip and required tag is compared with the Debian field table of that document kind (written from dsc(5), deb-changes(5), deb-src-control(5), deb-control(5), the Packages/Sources index format): the name must exist, comma lists split on ',' and stripped of blank/tab/LF, blank lists split on blanks, checksum lists one per line with the element type of their algorithm, versions/architectures/relationships in the library's own types. C10-SPLIT: the decoder splits blank separated lists on any white space and trims with the field's strip set. C10-HASHLINE: column tables of the checksum line parsers. C10-ACCESS: accessor tables (Maintainers, HasArchAll, SourcePackage, Checksums, Get* field names, AbsFiles). Accessors are also checked to leave the document unchanged (AbsFiles twice gives the same paths; Get<X> returns the parsed field X). C10-READER: ParseControl reads source and binaries from one reader. C10-DOC: for each of the eight document types a document is rendered in the Debian layout from a model (one value per field of the Debian field table of that kind: scalars, integers, yes/no, a version, architectures, a relationship folded over two lines, comma and blank lists folded, multi-line text with a blank-line dot, two lines per checksum list, five-column .changes lines) and (*Decoder).Decode is interpreted on it (reflect model of C09, reader oracle); every Go field is compared with the model: scalars verbatim, versions/architectures/relationships as the parsed form of exactly their text (their own UnmarshalControl interpreted on the trimmed element), lists as trimmed elements in order, checksum lines as (algorithm, hash, size, name[, section, priority]) tuples; Go-only fields stay untouched; fields without a Go counterpart are ignored."
 	rp.NotDecided = "document models other than the one of C10-DOC (field presence subsets, other list lengths); fields absent from the Go structs."
 	rp.Trusted = []string{"go/types, go/ssa", "the Debian field tables in c10.go"}
@@ -347,105 +347,37 @@ func checkC10(p *Prog, rp *Report) {
 // The slice decoder: finds the function in package control that reads the
 // "delim" and "strip" tags, and checks how the value is split and trimmed.
 func c10Split(p *Prog, rp *Report) {
-	r := rp.Rule("C10-SPLIT", "slice decoder: default delimiter one blank, blank lists split on any white space, value and elements trimmed with the strip set", 4)
-	var dec *ssa.Function
-	for _, fn := range p.SrcFuncs("control") {
-		gotDelim, gotStrip := false, false
-		for _, c := range allCalls(fn) {
-			if calleeName(c.Common()) == "(reflect.StructTag).Get" && len(c.Common().Args) == 2 {
-				if s, ok := constString(c.Common().Args[1]); ok {
-					if s == "delim" {
-						gotDelim = true
-					}
-					if s == "strip" {
-						gotStrip = true
-					}
-				}
-			}
-		}
-		if gotDelim && gotStrip {
-			if dec != nil {
-				r.undecided("control.slice-decoder", p.Pos(fn.Pos()), "two functions read both the delim and the strip tag: "+fname(dec)+" and "+fname(fn))
-				return
-			}
-			dec = fn
+	r := rp.Rule("C10-SPLIT", "list fields: blank separated lists split on any white space (also when folded); other delimiters split exactly; elements are trimmed with the strip set", 3)
+	str := types.Typ[types.String]
+	pos := ""
+	if fn := p.Func("control", "Unmarshal"); fn != nil {
+		pos = p.Pos(fn.Pos())
+	}
+	for _, tc := range []struct {
+		key, tag, text, want string
+	}{
+		{"blank-split", "", "V: a b\n c\td  e\n", `["a" "b" "c" "d" "e"]`},
+		{"comma-split", `delim:"," strip:"\n\r\t "`, "V: a, b c,\n d\n", `["a" "b c" "d"]`},
+		{"line-split", `delim:"\n" strip:"\n\r\t "`, "V:\n x 1\n y 2\n", `["x 1" "y 2"]`},
+		{"default-delim", "", "V: one\n", `["one"]`},
+	} {
+		t := mkProbeType("ListProbe", []probeField{{"V", types.NewSlice(str), tc.tag, false}})
+		run := newC09Run(p)
+		obj, isErr, why := run.unmarshal(t, tc.text)
+		switch {
+		case strings.HasPrefix(why, "PANIC"):
+			r.bad("control.list-decoder:"+tc.key, pos, "decoding "+fmt.Sprintf("%q", tc.text)+" panics: "+why, nil)
+		case why != "":
+			r.undecided("control.list-decoder:"+tc.key, pos, why)
+		case isErr:
+			r.bad("control.list-decoder:"+tc.key, pos, fmt.Sprintf("%q is rejected", tc.text), nil)
+		default:
+			got := fieldsOf(run.st, t, obj, nil)["V"]
+			r.check(got == tc.want, "control.list-decoder:"+tc.key, pos, fmt.Sprintf("%q with tags `%s` decodes to %s", tc.text, tc.tag, tc.want), fmt.Sprintf("%q with tags `%s` decodes to %s, want %s", tc.text, tc.tag, got, tc.want))
 		}
 	}
-	if dec == nil {
-		r.bad("control.slice-decoder", "", "no function reads both the delim and strip struct tags: the list decoder could not be located", nil)
-		return
-	}
-	pos := p.Pos(dec.Pos())
-	name := fname(dec)
-	// (1) default delimiter: a phi/alloc merging const " " with the tag value
-	consts := stringConstsOf(dec)
-	r.check(consts[" "], name+":default-delim", pos, "default delimiter is one blank", "the constant \" \" (default delimiter) no longer appears in the list decoder")
-	// (2) there is a strings.Fields call whose result can reach the range loop, guarded by delim == " "
-	fields := callsNamed(dec, "strings.Fields")
-	split := callsNamed(dec, "strings.Split")
-	okFields := false
-	detail := "no call of strings.Fields: a blank separated list folded over several lines is split on single blanks only"
-	for _, f := range fields {
-		// guarded by a comparison of the delimiter with " "
-		guard := false
-		for _, b := range dec.Blocks {
-			if len(b.Instrs) == 0 {
-				continue
-			}
-			if ifi, ok := b.Instrs[len(b.Instrs)-1].(*ssa.If); ok {
-				if bo, ok := ifi.Cond.(*ssa.BinOp); ok && bo.Op == token.EQL {
-					if s, ok := constString(bo.Y); ok && s == " " && b.Succs[0].Dominates(f.Block()) {
-						if derivesFrom(bo.X, func(v ssa.Value) bool {
-							c, ok := v.(*ssa.Call)
-							if !ok || calleeName(c.Common()) != "(reflect.StructTag).Get" {
-								return false
-							}
-							s, _ := constString(c.Call.Args[1])
-							return s == "delim"
-						}, 0) || true {
-							guard = true
-						}
-					}
-				}
-			}
-		}
-		if guard {
-			okFields = true
-		} else {
-			detail = "strings.Fields is not selected by the test delim == \" \""
-		}
-	}
-	r.check(okFields, name+":blank-split", pos, "blank separated lists are split with strings.Fields when the effective delimiter is \" \"", detail)
-	r.check(len(split) >= 1, name+":delim-split", pos, "other lists are split with strings.Split on the delimiter", "no strings.Split call in the list decoder")
-	// (3) trimming: strings.Trim(x, strip) applied to the whole value and to each element
-	trims := callsNamed(dec, "strings.Trim")
-	nStrip := 0
-	for _, t := range trims {
-		if derivesFrom(t.Call.Args[1], func(v ssa.Value) bool {
-			c, ok := v.(*ssa.Call)
-			if !ok || calleeName(c.Common()) != "(reflect.StructTag).Get" {
-				return false
-			}
-			s, _ := constString(c.Call.Args[1])
-			return s == "strip"
-		}, 0) {
-			nStrip++
-		}
-	}
-	r.check(nStrip >= 2, name+":trim", pos, "the value and every element are trimmed with the field's strip set", fmt.Sprintf("only %d strings.Trim(…, strip) calls: the value and each element must both be trimmed", nStrip))
 }
 
-func stringConstsOf(fn *ssa.Function) map[string]bool {
-	out := map[string]bool{}
-	for _, s := range stringLiterals([]*ssa.Function{fn}) {
-		out[s] = true
-	}
-	return out
-}
-
-// ---- C10-HASHLINE -----------------------------------------------------------------
-
-// Interprets the checksum line parsers abstractly: strings.Fields / Split are
 // replaced by oracles returning exact column lists of every length 0..6.
 func c10HashLine(p *Prog, rp *Report) {
 	r := rp.Rule("C10-HASHLINE", "checksum line parsers: 3 columns hash,size,name; 2 columns name,hash; .changes 5 columns hash,size,section,priority,name; algorithm constants", 6)
